@@ -35,19 +35,45 @@ Fixpoint sid_shape (items : list item) : bool :=
   | _ => false
   end.
 
-Definition ph_slash_free (i : item) : bool :=
+(* the pattern's language contains no string with a newline (so python's "$" cannot swallow one) *)
+Fixpoint nl_free (r : re) : bool :=
+  match r with
+  | Eps => true
+  | Chr a => negb (Ascii.eqb a "010")
+  | Cls c | Star c => match c with
+                      | CDigit | CDot => true
+                      | CNotSlash | CAny => false
+                      | CSet neg chars => if neg then false else negb (existsb (Ascii.eqb "010") chars)
+                      end
+  | Seq a b | Alt a b => nl_free a && nl_free b
+  | Grp _ a => nl_free a
+  end.
+
+Fixpoint group_free (r : re) : bool :=
+  match r with
+  | Eps | Chr _ | Cls _ | Star _ => true
+  | Seq a b | Alt a b => group_free a && group_free b
+  | Grp _ _ => false
+  end.
+
+(* a placeholder is open (the default pattern) or closed: slash-free, newline-free, no inner groups *)
+Definition ph_ok (i : item) : bool :=
   match i with
   | Lit _ => true
   | Ph _ None => true
-  | Ph _ (Some e) => match parse_re e with Some r => slash_free r | None => false end
+  | Ph _ (Some e) => match parse_re e with
+                     | Some r => slash_free r && nl_free r && group_free r
+                     | None => false
+                     end
   end.
 
 Definition wf_sid_tpl (t : tpl) : bool :=
-  sid_shape (tp_items t) && nodupb (item_names (tp_items t)) && forallb ph_slash_free (tp_items t).
+  sid_shape (tp_items t) && nodupb (item_names (tp_items t)) && forallb ph_ok (tp_items t).
 
 Definition wf_loadedb (Ld : Loaded) : bool :=
-  nodupb (map fst (l_sid_templates Ld))
+  nodupb (map tp_name (r_tpls (l_sid Ld)))
   && forallb wf_sid_tpl (r_tpls (l_sid Ld))
+  && negb (r_check_dup (l_sid Ld))
   && nodupb (map fst (c_sid_templates (l_conf Ld))).
 
 Definition wf_confb (c : Conf) : bool :=
